@@ -6,6 +6,24 @@ from collections import Counter
 from .env import TraphException
 
 
+def arg(lru):
+    """the API accepts LRUs as bytes or as text; queries pass a deterministic quarter of the LRUs as text (those whose
+    length is a multiple of 4 and that round-trip through the index's encoding).  A pure function of the LRU: no RNG."""
+    from .codec import ENCODING
+    if isinstance(lru, bytes) and len(lru) % 4 == 0:
+        try:
+            t = lru.decode(ENCODING[0])
+            if t.encode(ENCODING[0]) == lru:
+                return t
+        except UnicodeError:
+            pass
+    return lru
+
+
+def args(lrus):
+    return [arg(l) for l in lrus]
+
+
 def pages(case):
     """[(lru, crawled)] in enumeration order (duplicates preserved)"""
     return case.call("pages_iter", lambda: [(bytes(l), bool(n.is_crawled())) for n, l in case.t.pages_iter()])
@@ -37,11 +55,11 @@ def resolve(case, lru):
     """(weid, prefix) or (None, None); both resolution calls must agree on success/failure"""
     def f():
         try:
-            w = case.t.retrieve_webentity(lru)
+            w = case.t.retrieve_webentity(arg(lru))
         except TraphException:
             w = None
         try:
-            p = case.t.retrieve_prefix(lru)
+            p = case.t.retrieve_prefix(arg(lru))
         except TraphException:
             p = None
         return w, (bytes(p) if p else None)
@@ -49,7 +67,7 @@ def resolve(case, lru):
 
 
 def page_links(case, lru, **kw):
-    return case.call("get_page_links", lambda: [(bytes(s), bytes(t), w) for s, t, w in case.t.get_page_links(lru, **kw)])
+    return case.call("get_page_links", lambda: [(bytes(s), bytes(t), w) for s, t, w in case.t.get_page_links(arg(lru), **kw)])
 
 
 def links_iter(case, out):
